@@ -415,6 +415,181 @@ def check_C10(tier, seed):
 
 
 # ---------------------------------------------------------------------------
+# Frame / loop discipline over recorded dispatch events (NlFrames): C11, C12
+# ---------------------------------------------------------------------------
+def frames_files_leg(o, name, files, wd, timeout=1500):
+    """files: ndjson records with `steps` and `bc`; records without bytecode are left out."""
+    t0 = time.time()
+    optab = optab_file(wd)
+    ff = []
+    for f in files:
+        recs = [r for r in core.read_ndjson(f) if r.get("bc") and r.get("steps")]
+        g = f + ".frames"
+        core.write_ndjson(g, recs)
+        if recs:
+            ff.append((f, g))
+    results = run_tv_shards([g for _, g in ff], "NlFrames.tla", "NlFrames.cfg", wd, timeout=timeout,
+                            extra_env={"OPTAB": optab})
+    counts = {}
+    nrec = nev = 0
+    agreeing = []
+    for (f, g), r in zip(ff, results):
+        if r.violated:
+            raise ToolError(f"NlFrames internal invariant {r.violated} violated on {g}")
+        o.add_tlc(r)
+        recs = {x["id"]: x for x in core.read_ndjson(g)}
+        srcs = {x["id"]: x["text"] for x in core.read_ndjson(f + ".src")} if os.path.exists(f + ".src") else {}
+        nrec += len(recs)
+        if len(r.verdicts) != len(recs):
+            raise ToolError(f"{name}: {len(r.verdicts)} verdicts for {len(recs)} records in {g}")
+        for v in r.verdicts:
+            key = v["class"] + ":" + v["rule"]
+            counts[key] = counts.get(key, 0) + 1
+            nev += v.get("events", 0)
+            rec = recs[v["id"]]
+            text = srcs.get(v["id"], "")
+            o.traces += 1
+            if v["class"] == "mismatch":
+                sig = sig_of(name, v, rec, text)
+                sig["classes"] = sorted({x["class"] for x in v.get("viol", [])})
+                o.violation(sig, {"text": text, "viol": v.get("viol")[:10], "obs": rec.get("obs"),
+                                  "record_file": g, "id": v["id"], "spec_module": "NlFrames.tla", "cfg": "NlFrames.cfg"})
+            else:
+                agreeing.append(rec)
+    tried = rejected = 0
+    cand = [r for r in agreeing if len(r["steps"]) > 20 and r.get("mode", "full") == "full"
+            and any(e[4] > 1 for e in r["steps"])]
+    if cand:
+        rng = random.Random(7)
+        bad = []
+        for k, r in enumerate(rng.sample(cand, min(8, len(cand)))):
+            c = copy.deepcopy(r)
+            # corrupt one field of one event inside a call: base pointer or stack length
+            idx = [i for i, e in enumerate(c["steps"]) if e[4] > 1]
+            j = idx[len(idx) // 2]
+            c["steps"][j][3 if k % 2 == 0 else 4] += 1
+            bad.append(c)
+        bf = os.path.join(wd, "corrupt_frames.ndjson")
+        core.write_ndjson(bf, bad)
+        rr = core.tlc_or_die("NlFrames.tla", "NlFrames.cfg", env={"RECS": bf, "OPTAB": optab}, workdir_=wd)
+        tried = len(bad)
+        rejected = sum(1 for v in rr.verdicts if v["class"] == "mismatch")
+        if rr.violated:
+            rejected = tried
+        if tried != rejected:
+            raise ToolError(f"{name}: sensitivity self-test failed ({rejected}/{tried})")
+    o.legs.append({"leg": name, "records": nrec, "events_checked": nev, "verdicts": counts,
+                   "sensitivity_tried": tried, "sensitivity_rejected": rejected,
+                   "wall_s": round(time.time() - t0, 1)})
+
+
+def gen_files(wd, cmd, args, shards, prefix):
+    def gen(i):
+        f = os.path.join(wd, f"{prefix}{i}.ndjson")
+        core.run_nlh([cmd] + args + ["--shards", shards, "--shard", i, "--first-id", i * 1000000 + 1, "--out", f])
+        return f
+    return core.parallel(gen, list(range(shards)))
+
+
+def sem_and_frames(o, name, gen_args, n, seed, steps=4000, gen_cmd="gen-sem"):
+    """records with dispatch events: validated against NlSem (values) and NlFrames (discipline)"""
+    shards = max(1, min(core.NCPU, n // 100))
+    wd = core.workdir(f"{o.prop}_{name}")
+    per = (n + shards - 1) // shards
+
+    def gen(i):
+        f = os.path.join(wd, f"r{i}.ndjson")
+        core.run_nlh([gen_cmd] + gen_args + ["--seed", seed * 1009 + i, "--n", per, "--steps", steps, "--bytecode", 1,
+                                           "--first-id", i * 1000000 + 1, "--out", f])
+        return f
+    files = core.parallel(gen, list(range(shards)))
+    sem_files_leg(o, name + "-values", files, wd)
+    frames_files_leg(o, name + "-discipline", files, wd)
+
+
+def residue_leg(o, name, files, wd):
+    """NlBcSafe on the bytecode of the given records, residue classes counted as violations"""
+    t0 = time.time()
+    optab = optab_file(wd)
+    ff = []
+    for f in files:
+        recs = [r for r in core.read_ndjson(f) if r.get("bc")]
+        for r in recs:
+            r.pop("steps", None)
+        g = f + ".bc"
+        core.write_ndjson(g, recs)
+        if recs:
+            ff.append((f, g))
+    results = run_tv_shards([g for _, g in ff], "NlBcSafe.tla", "NlBcSafe.cfg", wd, extra_env={"OPTAB": optab})
+    counts = {}
+    nrec = 0
+    for (f, g), r in zip(ff, results):
+        o.add_tlc(r)
+        recs = {x["id"]: x for x in core.read_ndjson(g)}
+        srcs = {x["id"]: x["text"] for x in core.read_ndjson(f + ".src")} if os.path.exists(f + ".src") else {}
+        nrec += len(recs)
+        for v in r.verdicts:
+            key = v["class"] + ":" + v["rule"]
+            counts[key] = counts.get(key, 0) + 1
+            o.traces += 1
+            if v["class"] in ("mismatch", "residue"):
+                rec = recs[v["id"]]
+                text = srcs.get(v["id"], "")
+                sig = sig_of(name, v, rec, text)
+                sig["classes"] = sorted({x["class"] for x in v.get("viol", [])})
+                o.violation(sig, {"text": text, "viol": v.get("viol")[:10], "record_file": g, "id": v["id"],
+                                  "spec_module": "NlBcSafe.tla", "cfg": "NlBcSafe.cfg"})
+    o.legs.append({"leg": name, "records": nrec, "verdicts": counts, "wall_s": round(time.time() - t0, 1)})
+
+
+def check_C11(tier, seed):
+    o = Outcome("C11", tier, seed, "model_checking")
+    o.assumptions = [
+        "values and output: NlSem's rules for if-chains, zolang, stop / volgende / antwoord (DESIGN.md 4.2)",
+        "no residue: NlFrames.LoopResidue on the recorded back edges of the real machine, and one-height-per-instruction (NlBcSafe) on all paths of the compiled code",
+    ]
+    # complete enumeration over the template set
+    wd = core.workdir("C11_templates")
+    files = gen_files(wd, "gen-templates", ["--set", "control", "--steps", 3000], core.NCPU, "t")
+    sem_files_leg(o, "templates-values", files, wd)
+    frames_files_leg(o, "templates-discipline", files, wd)
+    residue_leg(o, "templates-all-paths", files, wd)
+    # random nests
+    sem_and_frames(o, "random-control", ["--family", "control"], size(tier, 1600, 40000), seed)
+    # loops far past 65 536 iterations: back edges only
+    wd2 = core.workdir("C11_longloops")
+    lf = os.path.join(wd2, "loops.ndjson")
+    core.run_nlh(["gen-loops", "--out", lf])
+    for r in core.read_ndjson(lf):
+        if r["obs"]["class"] != "Value":
+            o.violation({"leg": "long-loops", "rule": "class", "class": r["obs"]["class"], "msg": r["obs"].get("msg"),
+                         "text": r.get("what")}, {"obs": r["obs"], "what": r.get("what")})
+    frames_files_leg(o, "long-loops", [lf], wd2, timeout=1800)
+    o.extra["exhaustive"] = True
+    o.extra["rule"] = ("template set: 6 nest shapes x all pairs of slot fillers (expression, stel, empty block, nested block, value, if, stop, "
+                       "volgende, conditional and deeply nested exits, antwoord) x 0/1/2/5 iterations x top level / inside a function, enumerated "
+                       "completely; random nests beyond; four loops of 70 000+ iterations validated on their back edges")
+    return o.finish()
+
+
+def check_C12(tier, seed):
+    o = Outcome("C12", tier, seed, "model_checking")
+    o.assumptions = [
+        "values and output: NlSem's call rule (arguments left to right, then callee; fresh activation; parameters by position)",
+        "resumption: NlFrames checks every recorded Call / Return of the real machine (base pointer, locals padding, return address, restored base, stack cut back to one result)",
+        "call depth is bounded by the specification's MaxDepth (260) and step budget; deeper recursion is skipped as DontKnow",
+    ]
+    wd = core.workdir("C12_templates")
+    files = gen_files(wd, "gen-templates", ["--set", "calls", "--steps", 6000], 8, "t")
+    sem_files_leg(o, "templates-values", files, wd)
+    frames_files_leg(o, "templates-discipline", files, wd)
+    sem_and_frames(o, "random-calls", ["--family", "calls"], size(tier, 2400, 60000), seed)
+    o.extra["rule"] = ("template set: functions of 0-4 parameters x 0-4 locals called from 8 expression contexts; direct, mutual and "
+                       "doubly recursive functions to depth 200; empty bodies; functions stored, passed and returned; random call-heavy programs beyond")
+    return o.finish()
+
+
+# ---------------------------------------------------------------------------
 # C06: operators, exact over the whole range
 # ---------------------------------------------------------------------------
 def corrupt_big(rec, k):
@@ -513,6 +688,8 @@ CHECKS = {
     "C01": check_C01,
     "C06": check_C06,
     "C09": check_C09,
+    "C11": check_C11,
+    "C12": check_C12,
     "C10": check_C10,
     "C02": check_C02,
 }
